@@ -21,9 +21,16 @@ under every path through the cache (scan, scan, touch, scan, other configuration
 (5) replacement matrix: every way of putting other bytes under a cached path (write, back-dated
 write on a ladder of ages, delete+write, rename over, swap, directory renamed over, symbolic link
 created / re-pointed) x ordered pairs of contents from the ladder x configurations, scanned before
-and twice after."""
+and twice after; (6)-(8) trees with ARBITRARY file names, judged by the direct oracles alone (the model's
+universe is numbered paths): every file name Pygments maps to a supported language (gen/names.py: `*.h`,
+`*.hh`, `BUILD`, `*.pyi`, ...) stays byte-identical while a sibling of another language comes and goes in
+its folder; one file walks through all those names by renames / copies that keep its bytes (other
+extension, other language, other folder); random histories with canonically equivalent and awkward
+names, nested .gitignore files, back-dated writes, the root spelled through a symbolic link or `..`, and
+the three observation points (scan_command, the CLI entry function, `python -m codelimit scan`)."""
 import contextlib
 import io
+import json
 import os
 import sys
 
@@ -34,6 +41,7 @@ import cache_real as cr
 ID = "C09"
 TRUSTED = [
     "correspondence harness harness/props/C09.py + harness/cache_real.py (abstraction function from the cache file and the analysis log to the model's numbers; rich output silenced by patching rich, not codelimit)",
+    "streams (6)-(8) (trees with arbitrary file names) are judged by the direct oracles only, not by the model: from-scratch scan of a copy of the tree by the same program (scan_command), field-by-field comparison cache_real.full_shape / shape_diff, reuse rule from the analysis log; observation points 1 and 2 run codelimit.__main__.scan in a forked child / harness/cache_cli_worker.py (runpy of the module codelimit) in a fresh interpreter; file-name pools harness/gen/names.py (Pygments lexer tables, Unicode normal forms)",
     "modelled as parameters, not verified here: _analyze_file (C01-C06), md5, the file selection of scan_path (C11), totals/tree as functions of the file entries (C07), JSON writer/reader round trip (C08)",
 ]
 ASSUMPTIONS = [
@@ -206,6 +214,170 @@ def replacement_histories(thorough):
     return out
 
 
+# ------------------------------------------------------------------ trees of files with arbitrary names (oracle-only)
+
+_NAMES = {}
+
+
+def lang_rows(stem="unit"):
+    """names.language_file_names(stem), computed once (it walks through all lexers of Pygments)"""
+    from gen import names
+    if stem not in _NAMES:
+        _NAMES[stem] = names.language_file_names(stem)
+    return _NAMES[stem]
+
+
+def lang_names(stem="unit"):
+    """[(file name, language)] - every file name Pygments maps to a supported language (gen/names.py)"""
+    return [(fn, lang) for fn, lang, _others in lang_rows(stem)]
+
+
+def other_names():
+    """names of no supported language (next to the whole-name languages BUILD, SConstruct, ...)"""
+    from gen import names
+    if "other" not in _NAMES:
+        _NAMES["other"] = names.sibling_names("BUILD") + ["notes.txt", "data.json"]
+    return _NAMES["other"]
+
+
+def sibling_histories(thorough, rnd):
+    """stream (6): a file f stays byte-identical at its path while a sibling g comes and goes in ITS folder, for every
+    f of the name pool and every g of another language (thorough: every g; also in the root folder): scan, then
+    per g in a random order: the previous sibling is deleted, g created, scan (every fifth time a scan without any
+    sibling in between); finally the last sibling is deleted, scan"""
+    pool = lang_names()
+    out = []
+    for i, (f, lf) in enumerate(pool):
+        for folder in (("lib/", "") if thorough else ("lib/",)):
+            gs = [g for g, lg in pool if g != f and (thorough or lg != lf)]
+            rnd.shuffle(gs)
+            ops = [["s"]]
+            prev = None
+            for j, g in enumerate(gs):
+                if prev:
+                    ops.append(["d", folder + prev])
+                    if j % 5 == 0:
+                        ops.append(["s"])
+                ops += [["w", folder + g, 100 + (i + j) % 9], ["s"]]
+                prev = g
+            ops += [["d", folder + prev], ["s"]]
+            out.append({"named": 1, "kind": "siblings", "files": [[folder + f, 100 + i % 11]], "ops": ops})
+    return out
+
+
+def rename_chain_histories(thorough, rnd):
+    """stream (7): one file keeps its bytes and walks through every name of the pool (renamed to another extension
+    of its language, to another language's, to a name that is a language by itself; every second step into another
+    folder), a scan after every step; in the second half of the chains an older copy stays behind"""
+    pool = [fn for fn, _ in lang_names()]
+    out = []
+    for k in range(40 if thorough else 6):
+        names = list(pool)
+        rnd.shuffle(names)
+        folders = ["src/", "lib/", ""]
+        cur = folders[0] + names[0]
+        ops = [["s"]]
+        for j, n in enumerate(names[1:]):
+            nxt = folders[(j // 2) % 3] + n
+            ops += [["cp" if k % 2 and j % 3 == 0 else "r", cur, nxt], ["s"]]
+            cur = nxt
+        out.append({"named": 1, "kind": "rename-chain", "files": [[folders[0] + names[0], 100 + k % 13]],
+                    "cfg": k % cr.CFGS, "ops": ops})
+    return out
+
+
+DIRS_N = ["", "lib/", "src/deep/"]
+EXCL_N = [[], [], [], ["*.js"], ["lib"], ["*.h", "!lib/unit.h"], ["src/**/*.py"], ["BUILD"]]
+
+
+def name_pool(rnd):
+    """the file names of one random named history: language names (two stems), both spellings of a canonically
+    equivalent pair, awkward names, names of no supported language"""
+    from gen import names
+    ln = lang_names("unit") + lang_names("main")
+    pool = [rnd.choice(DIRS_N) + fn for fn, _ in rnd.sample(ln, 7)]
+    # the ambiguous names (claimed by several lexers) and the names that are a language by themselves: always some
+    special = [fn for fn, _lang, others in lang_rows("unit") if others or "." not in fn]
+    pool += [rnd.choice(DIRS_N) + fn for fn in rnd.sample(special, 2)]
+    ext = rnd.choice([".py", ".js", ".c", ".h", ".cpp", ".ts", ".java", ".cs"])
+    d = rnd.choice(DIRS_N)
+    pool += [d + x for x in rnd.choice(names.unicode_twins(ext))]
+    pool += [rnd.choice(DIRS_N) + x for x in rnd.sample(names.awkward_names(ext), 2)]
+    pool += [rnd.choice(DIRS_N) + x for x in rnd.sample(other_names(), 2)]
+    return sorted(set(pool))
+
+
+def gen_named_history(rnd, maxlen=20):
+    pool = name_pool(rnd)
+    cids = list(range(100, 122)) * 2 + cr.PLAIN + cr.DENSE + [7]
+    files = [[n, rnd.choice(cids)] for n in pool if rnd.random() < 0.4]
+    have = set(n for n, _ in files)
+    ops = []
+    for _ in range(rnd.randint(4, maxlen)):
+        r = rnd.random()
+        if r < 0.27:
+            ops.append(["s"])
+        elif r < 0.40:
+            n = rnd.choice(pool); ops.append(["w", n, rnd.choice(cids)]); have.add(n)
+        elif r < 0.46:
+            n = rnd.choice(pool); ops.append(["wb", n, rnd.choice(cids), rnd.randrange(9)]); have.add(n)
+        elif r < 0.54 and have:
+            n = rnd.choice(sorted(have)); ops.append(["d", n]); have.discard(n)
+        elif r < 0.70 and have:
+            a, b = rnd.choice(sorted(have)), rnd.choice(pool)
+            if a != b:
+                ops.append(["r", a, b]); have.discard(a); have.add(b)
+        elif r < 0.80 and have:
+            a, b = rnd.choice(sorted(have)), rnd.choice(pool)
+            if a != b:
+                ops.append(["cp", a, b]); have.add(b)
+        elif r < 0.84:
+            ops.append(["gi", rnd.choice(DIRS_N), rnd.choice([["*.py"], ["unit.*"], ["*", "!*.h"], ["deep"], []])])
+        elif r < 0.88:
+            ops.append(["e", rnd.choice(EXCL_N)])
+        elif r < 0.92:
+            ops.append(["root", rnd.randrange(3)])
+        elif r < 0.95:
+            ops.append(["cfg", rnd.randrange(cr.CFGS)])
+        elif r < 0.97:
+            ops += [["ent", 1], ["s"], ["ent", 0]]          # a forked child with two git calls costs 0.1 s
+        elif r < 0.977:
+            ops += [["ent", 2], ["s"], ["ent", 0]]          # a fresh interpreter costs a second
+        elif have:
+            ops.append(["t", rnd.choice(sorted(have))])
+    ops.append(["s"])
+    return {"named": 1, "kind": "random", "files": files, "excl": rnd.choice(EXCL_N), "cfg": rnd.choice([0, 0, 1, 2, 3]),
+            "entry": rnd.choice([0] * 9 + [1]), "ops": ops}
+
+
+def named_histories(ctx, rnd):
+    out = sibling_histories(ctx.thorough, rnd) + rename_chain_histories(ctx.thorough, rnd)
+    out += [gen_named_history(rnd) for _ in range(ctx.pick(160, 2500))]
+    return out
+
+
+def _named_stats(hists, recs):
+    d = {"histories": {}, "scans": 0, "scans_with_reuse": 0, "scans_by_entry": {}, "ops": {}, "file_names": 0, "languages_by_name": {}}
+    names_seen = set()
+    for h, r in zip(hists, recs):
+        d["histories"][h["kind"]] = d["histories"].get(h["kind"], 0) + 1
+        for op in h["ops"]:
+            d["ops"][op[0]] = d["ops"].get(op[0], 0) + 1
+            if op[0] in ("w", "wb"):
+                names_seen.add(op[1])
+            elif op[0] in ("r", "cp"):
+                names_seen.add(op[2])
+        names_seen |= set(n for n, _ in h["files"])
+        for o in r["real"]:
+            d["scans"] += 1
+            d["scans_with_reuse"] += 1 if o[2] else 0
+            d["scans_by_entry"][str(o[4])] = d["scans_by_entry"].get(str(o[4]), 0) + 1
+    d["file_names"] = len(names_seen)
+    for fn, lang in lang_names():
+        d["languages_by_name"][lang] = d["languages_by_name"].get(lang, 0) + 1
+    return d
+
+
 # ------------------------------------------------------------------ report / findings version guard
 
 def version_guard_cases():
@@ -300,7 +472,15 @@ def correspond(ctx):
     repl = replacement_histories(ctx.thorough)
     extra = trips + repl
     xrecs = [r for part in cr.pool_map(cr.run_histories, [extra[i::32] for i in range(32)]) for r in part]
-    dis, fails = cr.judge(recs + rrecs + xrecs)
+    # (6)-(8) trees with arbitrary names: oracles only
+    nhists = named_histories(ctx, ctx.rng("named-histories"))
+    order = sorted(range(len(nhists)), key=lambda i: -len(nhists[i]["ops"]))      # long ones first, spread over the pool
+    nparts = cr.pool_map(cr.run_histories, [[nhists[i] for i in order[j::48]] for j in range(48)])
+    nrecs = [None] * len(nhists)
+    for j, part in enumerate(nparts):
+        for i, r in zip(order[j::48], part):
+            nrecs[i] = r
+    dis, fails = cr.judge(recs + rrecs + xrecs + nrecs)
     # version guard of report / findings
     vg = version_guard_cases()
     replies = common.run_driver([c[1] for c in vg])
@@ -315,11 +495,13 @@ def correspond(ctx):
                       "required": "distinct measurement results per (path, content)"})
     nscans_random = sum(len(r["real"]) for r in rrecs)
     nscans_extra = sum(len(r["real"]) for r in xrecs)
+    nst = _named_stats(nhists, nrecs)
     st = _stats(recs)
     st_r = _stats(rrecs)
     manip = ("ca", "cj", "cm", "k", "cr", "co", "D", "fmt", "dup")
     nontrivial = set(r["request"] + "|%s" % r["input"].get("cfg", 0) for r in recs + rrecs + xrecs
                      if any(o and len(o) == 5 and o[1] for o in r["real"]) or any(op[0] in manip for op in r["input"]["ops"]))
+    nontrivial |= set(json.dumps(h, sort_keys=True) for h, r in zip(nhists, nrecs) if any(o[2] for o in r["real"]))
     kinds = {}
     for h in repl:
         kinds[h["kind"]] = kinds.get(h["kind"], 0) + 1
@@ -333,12 +515,16 @@ def correspond(ctx):
     # shrink what failed (keeps the evidence small and the replay readable)
     fails = _shrunk(fails)
     return {
-        "evaluations": n_ex + nscans_random + nscans_extra + len(vg),
+        "evaluations": n_ex + nscans_random + nscans_extra + len(vg) + nst["scans"],
         "distinct_nontrivial": len(nontrivial),
-        "rule": "from %d initial states (no cache / 3 files scanned / 2 files of equal content scanned under an exclusion) every sequence of at most %d operations over a %d-letter alphabet (write 3x3, delete, rename, touch, back-dated write, symbolic link to an old file, swap, exclusions, remove cache, junk, ill-typed, other-version caches with an altered entry and kept / forged checksum, version key removed, old cache restored, entry dropped, truncation, cache dir / marker removal, scan) that ends in a scan: %d scans, each compared with the model and the oracles; %d random histories of length <= 25 on 7 paths (two directories with the same file names) x %d contents (4 plain, 2 with several same-named functions on one line, size ladder %s bytes) x 5 exclusion settings (one with a negated pattern) x 4 configurations (verbose, repository; also switched inside a history) with back-dated writes (10^0..10^9 s), links to old files and directories renamed over each other (%d scans); %d round-trip histories (every content under %d paths: scan, scan, touch, scan, other configuration, scan); %d replacement histories (%s) over ordered pairs of %d ladder contents, scan before and twice after (%d scans in streams 4+5); %d report/findings calls on caches of every version class; non-trivial = histories with a reuse or a cache manipulation" % (
+        "rule": "from %d initial states (no cache / 3 files scanned / 2 files of equal content scanned under an exclusion) every sequence of at most %d operations over a %d-letter alphabet (write 3x3, delete, rename, touch, back-dated write, symbolic link to an old file, swap, exclusions, remove cache, junk, ill-typed, other-version caches with an altered entry and kept / forged checksum, version key removed, old cache restored, entry dropped, truncation, cache dir / marker removal, scan) that ends in a scan: %d scans, each compared with the model and the oracles; %d random histories of length <= 25 on 7 paths (two directories with the same file names) x %d contents (4 plain, 2 with several same-named functions on one line, size ladder %s bytes) x 5 exclusion settings (one with a negated pattern) x 4 configurations (verbose, repository; also switched inside a history) with back-dated writes (10^0..10^9 s), links to old files and directories renamed over each other (%d scans); %d round-trip histories (every content under %d paths: scan, scan, touch, scan, other configuration, scan); %d replacement histories (%s) over ordered pairs of %d ladder contents, scan before and twice after (%d scans in streams 4+5); %d report/findings calls on caches of every version class; non-trivial = histories with a reuse or a cache manipulation; PLUS, judged by the oracles alone (report == from-scratch scan of a copy field by field incl. the shape of identifier and time stamp, reuse only of files whose path and bytes the current-version cache knows), trees with file names from Pygments / Unicode data (%d names that select one of %d languages by extension or whole name): %s; %d scans, by observation point (0 scan_command, 1 the CLI entry function in a forked child, 2 `python -m codelimit scan` in a fresh interpreter) %s" % (
             len(INITS), depth, nal, n_ex, nrand, len(set(pool)), sorted(cr.SIZED[c] for c in set(pool) if c in cr.SIZED),
             nscans_random, len(trips), len(set(h["init"][0][0] for h in trips)), len(repl),
-            ", ".join("%s %d" % kv for kv in sorted(kinds.items())), len(set(h["init"][-1][1] for h in repl)), nscans_extra, len(vg)),
+            ", ".join("%s %d" % kv for kv in sorted(kinds.items())), len(set(h["init"][-1][1] for h in repl)), nscans_extra, len(vg),
+            len(lang_names()), len(nst["languages_by_name"]),
+            "%d sibling histories (a file stays byte-identical while a file of another language comes and goes in its folder, every name x every name of another language), %d rename / copy chains through all names (bytes kept across extensions, languages and folders), %d random histories (write, back-dated write, delete, rename, copy, nested .gitignore, exclusions, root spelled through a symbolic link or `..`, configuration and observation point switched; canonically equivalent and awkward names)" % (
+                nst["histories"].get("siblings", 0), nst["histories"].get("rename-chain", 0), nst["histories"].get("random", 0)),
+            nst["scans"], json.dumps(nst["scans_by_entry"], sort_keys=True)),
         "samples": [{"request": r["request"], "real_last_scan": str(r["real"][-1])} for r in (recs[5:7] + rrecs[:3] + xrecs[:2])],
         "exhaustive": True,
         "distribution": {"exhaustive": st, "random": st_r, "random_scans": nscans_random,
@@ -348,7 +534,8 @@ def correspond(ctx):
                          "content_bytes": {str(k): len(cr.content(k)) for k in range(cr.NCONTENT)},
                          "configurations_random": {str(k): sum(1 for r in rrecs if r["input"].get("cfg", 0) == k) for k in range(cr.CFGS)},
                          "oracle_only_histories": sum(1 for r in recs + rrecs + xrecs if r.get("oracle_only")),
-                         "forged_histories_skipped": sum(1 for r in recs + rrecs + xrecs if r.get("forged"))},
+                         "forged_histories_skipped": sum(1 for r in recs + rrecs + xrecs if r.get("forged")),
+                         "named_trees": nst},
         "disagreements": dis[:50], "oracle_failures": fails[:50],
     }
 
@@ -384,6 +571,7 @@ def search(ctx, hints):
     rnd = ctx.rng("search")
     hists = [gen_history(rnd, 25, content_pool(ctx.thorough)) for _ in range(ctx.pick(400, 3000))]
     hists += replacement_histories(False) + round_trip_histories(False)
+    hists += named_histories(ctx, ctx.rng("named-histories"))
     recs = [r for part in cr.pool_map(cr.run_histories, [hists[i::32] for i in range(32)]) for r in part]
     dis, fails = cr.judge(recs)
     for d in dis[:3]:
